@@ -94,9 +94,11 @@ def obsDigest {σ : Type} (vw : View σ) (s : σ) (probe : Option (Nat × Nat)) 
     | none => []
   [V.ofNat (vw.order s), V.ofNat verts.length, V.ofNat (vw.size s), V.ofNat (digest verts (vw.arcs s)), .l probes]
 
+/-- The last element also carries `arcs()` of the weighted digraph and the listing of the second
+of two `arcs()` iterators polled alternately (every `arcs()` call lists the same sequence). -/
 def obsFinal {σ : Type} (vw : View σ) (s : σ) : V :=
   .l ([.a "final", V.ofNat (vw.order s), V.ofNats (vw.verts s), showArcs vw.weighted (vw.arcs s)] ++
-    (if vw.weighted then [V.ofPairs (vw.plainArcs s)] else []))
+    (if vw.weighted then [V.ofPairs (vw.plainArcs s)] else []) ++ [V.ofPairs (vw.plainArcs s)])
 
 /-- Replay a history and render one value per step; `none` = an unsupported call. -/
 def simulate {σ : Type} (vw : View σ) (s0 : σ) (ops : List HOp) (uni : List Nat) : Option (σ × List V) :=
@@ -159,13 +161,14 @@ def viewEL : View EdgeList where
 
 /-- The matrix is observed through the LITERAL iterator loop (`arcsIter`) and `count_ones` sum
 (`sizePop`) of `Model/ReprEqMxIter.lean`; `Proof/ReprMXIter.lean` proves them equal to the filter
-forms `AdjMatrix.arcs` / `AdjMatrix.size` the theorems speak about. -/
+forms `AdjMatrix.arcs` / `AdjMatrix.size` the theorems speak about.  Above 1 024 blocks (order > 256,
+stress stream) the linear-time `arcsFold` (proved equal as well) replaces the list-indexing loop. -/
 def viewMX : View AdjMatrix where
   weighted := false
   order := AdjMatrix.order
   verts := AdjMatrix.vertices
-  arcs := fun d => unitArcs d.arcsIter
-  plainArcs := AdjMatrix.arcsIter
+  arcs := fun d => unitArcs (if d.blocks.length ≤ 1024 then d.arcsIter else d.arcsFold)
+  plainArcs := fun d => if d.blocks.length ≤ 1024 then d.arcsIter else d.arcsFold
   size := AdjMatrix.sizePop
   weight := fun d u v => unitW (d.hasArc u v)
   step := fun d op => match op with
